@@ -30,6 +30,7 @@ const (
 )
 
 type Opts struct {
+	MemQueue bool // in-memory state queue (needed when a hidden history variable holds lazily evaluated values)
 	Module   string            // module name (file Module.tla)
 	Cfg      string            // cfg file name (relative to spec dir) or "" for Module.cfg
 	CfgText  string            // when non-empty, written as the cfg (overrides Cfg)
@@ -70,7 +71,21 @@ var (
 )
 
 // Run copies the spec directory to a fresh directory under scratch and runs TLC.
+// Run runs TLC once; a run that ends in an internal TLC failure of the disk-backed
+// state queue (it cannot serialise lazily evaluated function values kept in a history
+// variable hidden by the VIEW: "fcnRcd is null") is repeated with the in-memory queue.
 func Run(scratch string, o Opts) (*Result, error) {
+	res, err := run1(scratch, o)
+	if err == nil && !res.OK && res.Violated == "" && !res.Deadlock && !res.TimedOut && !o.DFS && !o.MemQueue &&
+		(strings.Contains(res.Output, "fcnRcd is null") || strings.Contains(res.Output, "FcnRcdValue")) {
+		res.Cleanup()
+		o.MemQueue = true
+		return run1(scratch, o)
+	}
+	return res, err
+}
+
+func run1(scratch string, o Opts) (*Result, error) {
 	dir, err := os.MkdirTemp(scratch, "tlc-")
 	if err != nil {
 		return nil, err
@@ -119,6 +134,8 @@ func Run(scratch string, o Opts) (*Result, error) {
 	args := []string{"-XX:+UseParallelGC", "-Xmx" + heap, "-Xss64m"}
 	if o.DFS {
 		args = append(args, "-Dtlc2.tool.queue.IStateQueue=StateDeque")
+	} else if o.MemQueue {
+		args = append(args, "-Dtlc2.tool.queue.IStateQueue=MemStateQueue")
 	}
 	args = append(args, "-cp", jar, "tlc2.TLC", "-metadir", filepath.Join(dir, "meta"),
 		"-config", cfg, "-workers", strconv.Itoa(o.Workers), "-noGenerateSpecTE")
